@@ -26,7 +26,7 @@ TECHNIQUE = ("fault enumeration + fuzzing: for base datagrams of the reference a
              "atheris campaigns in the thorough tier. Oracle: CPU time and resident-memory growth bounded by a stated multiple of the "
              "datagram size, and the same client / listener handles the next valid exchange correctly")
 RULE = ("case = entry path {response, discovery reply, trap listener} x base datagram x mutation {bit i, truncation at n, header octet "
-        "o := v, the same on the plaintext scoped PDU of an authenticated / encrypted message, raw bytes, generated TLV tree}; oracle "
+        "o := v, the same on the plaintext scoped PDU of an authenticated / encrypted message, raw bytes, generated TLV tree incl. wide flat sequences of up to 20000 tiny elements in every frame position}; oracle "
         "budget: CPU <= 2 s + 100 us x len, resident-set growth <= 48 MiB + 1024 x len; non-trivial = the mutant is rejected (an "
         "exception) or differs from the base in a header octet; distinct = (exception type, innermost puresnmp / x690 frame) "
         "buckets are reported, distinct count = distinct mutants")
@@ -47,7 +47,7 @@ PROTOS = {"v1": vworld.V1_PROTO, "v2c": vworld.V2C_PROTO, "v3n": vworld.V3_PROTO
 
 def BASES(tier):
     b = [("response", "v2c", "multiget"), ("response", "v3n", "get"), ("disco", "v3a", "get"),
-         ("response", "v3a", "get"), ("inner", "v3p", "get"), ("trap", "v2c", "trap")]
+         ("response", "v3a", "get"), ("inner", "v3p", "get"), ("trap", "v2c", "trap"), ("udp", "v2c", "get")]
     if tier == "thorough":
         b += [("response", "v1", "get"), ("response", "v2c", "error"), ("response", "v3p", "get"), ("response", "v3s", "multiget"),
               ("inner", "v3a", "multiget"), ("inner", "v3s", "get"), ("disco", "v3n", "get"), ("disco", "v3p", "get"),
@@ -104,6 +104,8 @@ def base_bytes(base):
     path, pk, what = base
     if path == "trap":
         out = trap_bytes(what == "trap_big")
+    elif path == "udp":
+        out = base_bytes(("response", pk, what))
     else:
         agent, client = vworld.make_world(PROTOS[pk], dict(DB), request_cap=20)
         agent.respond_hook = lambda a, r: _special(a, r, what)
@@ -165,6 +167,9 @@ def build_tree(node, depth=0):
     tag, lie, body = node
     if isinstance(body, list):
         content = b"".join(build_tree(c, depth + 1) for c in body)
+    elif isinstance(body, dict) and "wide" in body:
+        # a wide, flat run of tiny elements: {"wide": n, "item": hex}
+        content = bytes.fromhex(body["item"]) * body["wide"]
     elif isinstance(body, dict):
         # deep nesting: {"nest": n, "tag": t}
         content = b""
@@ -215,7 +220,49 @@ def deliver(base, mutant, use_guard=True):
     info = dict(outcome=None, bucket=None, followup=None)
     rss0 = resource.getrusage(resource.RUSAGE_SELF).ru_maxrss
     t0 = time.process_time()
-    if path == "trap":
+    if path == "udp":
+        # through the real UDP sender (send_udp + SNMPClientProtocol) on a virtual-time loop: every attempt is answered
+        # with the mutant after 0.1 s; the follow-up call is answered with the authentic response
+        good = base_bytes(("response", pk, what))
+        loop = vloop.VLoop([dict(kind="reply", d=0.1)] * 400, mutant)
+        old = vworld._LOOP
+        try:
+            asyncio.set_event_loop(loop)
+            client = vworld.Client("192.0.2.1", vworld.creds(PROTOS[pk]))
+            client.configure(timeout=1, retries=3)
+            with vclock.fixed(1_700_000_000):
+                try:
+                    loop.run_until_complete(_op(client, what))
+                    info["outcome"] = "ok"
+                except vsandbox.HangDetected:
+                    raise
+                except MemoryError:
+                    info["outcome"] = "memory"
+                except vloop.Deadlock as e:
+                    info["outcome"] = "exc"
+                    info["bucket"] = "Deadlock"
+                except Exception as e:  # noqa
+                    info["outcome"] = "exc"
+                    info["bucket"] = _bucket(e)
+                info["cpu"] = time.process_time() - t0
+                if len(loop.transports) > 3:
+                    info["followup"] = "%d datagram endpoints were opened for one request with retries=3" % len(loop.transports)
+                else:
+                    loop.reply = good
+                    loop.scripts = [dict(kind="reply", d=0.1)] * 400
+                    loop.transports.clear()
+                    try:
+                        r = loop.run_until_complete(client.get(vworld.OID(SC)))
+                        info["followup"] = "ok" if vworld.observe(r) == WANT else "next valid request returned %r" % (r,)
+                    except Exception as e:  # noqa
+                        info["followup"] = "next valid request on the same client raised %s: %s" % (type(e).__name__, str(e)[:160])
+        finally:
+            try:
+                loop.close()
+            except Exception:  # noqa
+                pass
+            asyncio.set_event_loop(old if old is not None and not old.is_closed() else None)
+    elif path == "trap":
         from puresnmp.api.raw import register_trap_callback
 
         got = []
@@ -417,9 +464,12 @@ def tree(depth=0):
     leaf = st.tuples(st.sampled_from(TAGS), st.sampled_from(LIES), st.binary(max_size=24).map(bytes.hex)).map(list)
     deep = st.tuples(st.sampled_from([0x30, 0xA2, 0x24]), st.sampled_from(LIES),
                      st.fixed_dictionaries(dict(nest=st.sampled_from([10, 200, 1000, 5000]), tag=st.sampled_from([0x30, 0xA2, 0x24])))).map(list)
+    wide = st.tuples(st.sampled_from([0x30, 0x30, 0xA2, 0x04]), st.sampled_from(["ok", "ok", "ok", "plus"]),
+                     st.fixed_dictionaries(dict(wide=st.sampled_from([50, 500, 2000, 8000, 20000]),
+                                                item=st.sampled_from(["0500", "020101", "0400", "30020500", "3000", "06012b"])))).map(list)
     if depth >= 3:
         return leaf
-    return st.one_of(leaf, leaf, deep,
+    return st.one_of(leaf, leaf, deep, wide,
                      st.tuples(st.sampled_from([0x30, 0x30, 0xA2, 0xA8, 0x04]), st.sampled_from(LIES),
                                st.lists(st.deferred(lambda: tree(depth + 1)), max_size=5)).map(list))
 
@@ -437,6 +487,23 @@ def generated(draw, tier):
     if base[1].startswith("v3"):
         parts = [[0x02, "ok", "03"], [0x30, draw(st.sampled_from(LIES)), [[0x02, "ok", "01"], [0x02, "ok", "00ffe3"], [0x04, "ok", "00"], [0x02, "ok", "03"]]],
                  [0x04, draw(st.sampled_from(LIES)), [draw(tree(2))]], draw(tree(1))]
+    if draw(st.integers(0, 3)) == 0:
+        # a well-formed frame around one wide, flat sequence (security parameters, scoped PDU or varbind list)
+        n = draw(st.sampled_from([200, 1000, 4000, 12000]))
+        item = draw(st.sampled_from(["0500", "020101", "0400", "3000"]))
+        widenode = [0x30, "ok", dict(wide=n, item=item)]
+        if base[1].startswith("v3"):
+            where = draw(st.sampled_from(["secparams", "scoped", "header"]))
+            hdr = [0x30, "ok", [[0x02, "ok", "01"], [0x02, "ok", "00ffe3"], [0x04, "ok", "00"], [0x02, "ok", "03"]]]
+            usm = [0x30, "ok", [[0x04, "ok", "80001f888076657269662d6167656e74"], [0x02, "ok", "03"], [0x02, "ok", "03e8"],
+                                [0x04, "ok", ""], [0x04, "ok", ""], [0x04, "ok", ""]]]
+            scoped = [0x30, "ok", [[0x04, "ok", ""], [0x04, "ok", ""], [0xA8, "ok", [[0x02, "ok", "01"], [0x02, "ok", "00"], [0x02, "ok", "00"], widenode]]]]
+            parts = [[0x02, "ok", "03"], widenode if where == "header" else hdr,
+                     [0x04, "ok", [widenode if where == "secparams" else usm]], scoped if where != "scoped" else widenode]
+        else:
+            parts = [[0x02, "ok", "01" if base[1] == "v2c" else "00"], [0x04, "ok", b"public".hex()],
+                     [0xA2 if base[0] != "trap" else 0xA7, "ok", [[0x02, "ok", "6553f100"], [0x02, "ok", "00"], [0x02, "ok", "00"], widenode]]]
+        return dict(base=list(base), mut=["tree", [0x30, "ok", parts]])
     return dict(base=list(base), mut=["tree", [0x30, draw(st.sampled_from(LIES)), parts]])
 
 
@@ -468,6 +535,8 @@ def units(tier, seed):
         for k in range(2):
             us.append(Unit("flips-%s-%d" % (nm, k), enumeration_unit, cases=_Muts(base, "flip", k, 2),
                            label="flips-%s-%d" % (nm, k), sample_every=401))
+        if base[0] == "udp":
+            continue     # same decoder as the response path: flips + truncations (incl. the empty datagram) suffice
         m = 4 if tier == "quick" else 8
         for k in range(m):
             us.append(Unit("hdr-%s-%d" % (nm, k), enumeration_unit, cases=_Muts(base, "sub", k, m),
